@@ -92,6 +92,8 @@ Section CycleS.
     | dspS_mscp : forall h kids a mas T (Zs:list DI), omultiple (Scp h kids a) = true ->
         canon (Scp h kids a) None = Ok mas ->
         wbS (Scp h kids a) (T :: map (fun z:DI => inst h a (fst (fst z))) Zs) ->
+        Forall (fun z:DI => canon (Scp h kids a) (Some (inst h a (fst (fst z)))) = Ok (snd (fst z)) /\ eqs (snd (fst z)) mas = false) Zs ->
+        NoDup (map (fun z:DI => snd (fst z)) Zs) ->
         Forall (fun z:DI => Bl2 dspS (entries kids) (fst (fst z)) (fst (snd z))) Zs ->
         Forall (fun z:DI => List.concat (fst (snd z)) <> [] /\
                             canon (Scp h kids a) (Some (inst h a (fst (snd z)))) = Ok (snd (snd z)) /\
@@ -112,6 +114,7 @@ Section CycleS.
     | reqS_mscp : forall h kids a mas T (Rs:list RI), omultiple (Scp h kids a) = true ->
         canon (Scp h kids a) None = Ok mas ->
         dspS (Scp h kids a) (T :: map (fun r:RI => inst h a (fst (fst (fst r)))) Rs) (map (fun r:RI => inst h a (fst (snd (fst r)))) Rs) ->
+        Forall (fun r:RI => Bl2 dspS (entries kids) (fst (fst (fst r))) (fst (snd (fst r)))) Rs ->
         Forall (fun r:RI => Bl2 (fun k (x:list obj * list obj) rb => reqS k (fst x) (snd x) rb) (entries kids)
                                 (List.combine (fst (fst (fst r))) (fst (snd (fst r)))) (snd r)) Rs ->
         Forall (fun r:RI => eqs (snd (fst (fst r))) mas = false /\
@@ -173,7 +176,7 @@ Section CycleS.
   Lemma dspS_named : forall k b db, dspS k b db -> forall o, In o db -> named k o.
   Proof.
     intros k b db H o Ho. pose proof (dspS_wbS _ _ _ H) as Hw.
-    destruct H as [h mws a v x y Em Hv Hx Hy E|h mws a v x Em Hv Hx Hy|h kids a bs dbs Em HB HB2|k T L Em Hd Hw'|h kids a mas T Zs Em Hmas Hw' HB HC Hnd].
+    destruct H as [h mws a v x y Em Hv Hx Hy E|h mws a v x Em Hv Hx Hy|h kids a bs dbs Em HB HB2|k T L Em Hd Hw'|h kids a mas T Zs Em Hmas Hw' HT HndT HB HC Hnd].
     - apply (wbS_named _ _ Hw). exact Ho.
     - destruct Ho.
     - unfold optscope in Ho. destruct (List.concat dbs); [destruct Ho|]. destruct Ho as [E|[]]. subst. split; reflexivity.
@@ -183,7 +186,7 @@ Section CycleS.
 
   Lemma reqS_named : forall k b db rb, reqS k b db rb -> forall o, In o rb -> named k o.
   Proof.
-    intros k b db rb H o Ho. destruct H as [h mws a v Em Hd|h mws a v Em Hd|h kids a xs rbs Em HB|k b L Em Hdk Hd|h kids a mas T Rs Em Hmas Hd HB HC Hn1 Hn2].
+    intros k b db rb H o Ho. destruct H as [h mws a v Em Hd|h mws a v Em Hd|h kids a xs rbs Em HB|k b L Em Hdk Hd|h kids a mas T Rs Em Hmas Hd HBd HB HC Hn1 Hn2].
     - apply (wbS_named _ _ (dspS_wbS _ _ _ Hd)). exact Ho.
     - destruct Ho as [E|[]]. subst. split; reflexivity.
     - destruct Ho as [E|[]]. subst. split; reflexivity.
@@ -562,7 +565,9 @@ Section CycleS.
       assert (EL : map (fun p:WI => inst h a (fst p)) Ls = map (fun z:DI => inst h a (fst (fst z))) Zs).
       { rewrite <- E1, map_map. reflexivity. }
       rewrite EL in Hwb0 |- *.
-      apply (dspS_mscp h kids a mas _ Zs); assumption.
+      apply (dspS_mscp h kids a mas _ Zs); try assumption.
+      + rewrite <- E1 in HC. rewrite Forall_forall in HC |- *. intros z Hz. apply (HC (fst z)). apply in_map. exact Hz.
+      + rewrite <- E1, map_map in Hnd. exact Hnd.
   Qed.
 
   (* ---------------------------------------------------------------- the whole scope: W and D *)
@@ -603,6 +608,374 @@ Section CycleS.
         intros j k x [bo uo] Hjk Hx Hg Hb. destruct (HE j k Hjk) as [A [B [C [D [E [_ [G G']]]]]]]. cbn [fst].
         eapply fetch_one_dspS; try eassumption.
         rewrite (match_sources_gview (onm k) comb (List.concat bs) Hv). exact Hg.
+  Qed.
+
+  (* ---------------------------------------------------------------- the difference merged back *)
+  Definition rec_reqS (k:obj) (recF:list lsrc -> res fout) : Prop :=
+    forall xs comb ros u, Bl PRS (entries (okids k)) xs -> lplain comb ->
+    lview comb = strip_objs (List.concat (map snd xs)) -> recF comb = Ok (ros, u) ->
+    exists rbs, ros = List.concat rbs /\ Bl2 QRS (entries (okids k)) xs rbs.
+
+  Lemma Forall_of_map : forall A B (f:A -> B) (P:B -> Prop) l, Forall P (map f l) -> Forall (fun x => P (f x)) l.
+  Proof. intros A B f P l. induction l as [|x l IH]; intros H; [constructor|]. cbn [map] in H. inversion H; subst. constructor; auto. Qed.
+
+  Lemma wbS_mscp_tmpl : forall h kids a T L, omultiple (Scp h kids a) = true -> wbS (Scp h kids a) (T :: L) ->
+    T = tmplS (Scp h kids a) L.
+  Proof.
+    intros h kids a T L Em H. inversion H as [|h0 kids0 a0 bs Em0|k mas L0 ts Em0 Hd|h0 kids0 a0 mas Ls Em0 Hmas HB HC Hnd]; subst.
+    - congruence.
+    - discriminate Hd.
+    - reflexivity.
+  Qed.
+
+  Lemma tmplS_nil_iff : forall k (L L':list obj), (L = [] <-> L' = []) -> tmplS k L = tmplS k L'.
+  Proof.
+    intros k L L' H. unfold tmplS, tmpl_flag. destruct (mandatory (ooptional k)); [reflexivity|].
+    destruct L as [|x L]; destruct L' as [|y L']; try reflexivity.
+    - destruct H as [H _]. specialize (H eq_refl). discriminate.
+    - destruct H as [_ H]. specialize (H eq_refl). discriminate.
+  Qed.
+
+  (* the partial instances of a .multiple scope, offered to a merging run *)
+  Lemma evs_insts_req : forall h kids a recF mas, canon (Scp h kids a) None = Ok mas ->
+    omultiple (Scp h kids a) = true -> rec_reqS (Scp h kids a) recF -> restored_ok (Scp h kids a) ->
+    forall (Zs:list DI) M' el, lplain M' ->
+    map sl M' = map (fun z:DI => Scp (with_tmpl h 0) (strip_objs (List.concat (fst (snd z)))) a) Zs ->
+    Forall (fun z:DI => canon (Scp h kids a) (Some (inst h a (fst (fst z)))) = Ok (snd (fst z)) /\ eqs (snd (fst z)) mas = false) Zs ->
+    Forall (fun z:DI => Bl2 dspS (entries kids) (fst (fst z)) (fst (snd z))) Zs ->
+    evs env canon false (Scp h kids a) recF mas M' = Ok el ->
+    exists Rs:list RI, map fst Rs = Zs /\ el = map (fun r:RI => Some (snd (fst (fst r)), inst h a (snd r))) Rs /\
+      Forall (fun r:RI => Bl2 (fun k (x:list obj * list obj) rb => reqS k (fst x) (snd x) rb) (entries kids)
+                              (List.combine (fst (fst (fst r))) (fst (snd (fst r)))) (snd r)) Rs /\
+      Forall (fun r:RI => canon (Scp h kids a) (Some (inst h a (snd r))) = Ok (snd (fst (fst r)))) Rs.
+  Proof.
+    intros h kids a recF mas Hmas Em Hrec Hrest. specialize (Hrest Em).
+    induction Zs as [|[[bs t] [dbs u]] Zs IH]; intros M' el Hp Hv HT HB H.
+    - destruct M'; [|discriminate]. cbn in H. injection H as E. subst. exists []. repeat split; constructor.
+    - destruct M' as [|s' M']; [discriminate|]. cbn [map fst snd] in Hv. injection Hv as Hv1 Hv2.
+      inversion HT as [|? ? [HT1 HT1'] HT2]; subst. inversion HB as [|? ? HB1 HB2]; subst. cbn [fst snd] in *.
+      cbn [evs] in H. bind_inv H as x Hx. bind_inv H as xs Hxs. injection H as E. subst el.
+      destruct (IH M' xs) as [Rs [E1 [E2 [F1 F2]]]]; try assumption; [intros y Hy; apply Hp; right; exact Hy|].
+      unfold ev in Hx. bind_inv Hx as cc Hcc.
+      destruct (cand_scope false h kids a recF s' _ _ _ cc (Hp s' (or_introl eq_refl)) Hv1 Hcc) as [comb [[ros u0] [Hcp [Hcv [Hoc Ecc]]]]].
+      pose proof (Bl2_lengths _ _ _ _ _ HB1) as Hlen.
+      destruct (Hrec (List.combine bs dbs) comb ros u0 (Bl2_pairs _ _ _ _ _ HB1) Hcp) as [rbs [Eros HB3]];
+        [rewrite (combine_snd _ _ bs dbs Hlen); exact Hcv|exact Hoc|]. cbn [okids] in HB3. subst cc ros.
+      assert (Hct : canon (Scp h kids a) (Some (inst h a rbs)) = Ok t).
+      { apply (Hrest (List.combine bs dbs) rbs t HB3). rewrite (combine_fst _ _ bs dbs Hlen). exact HT1. }
+      cbn [fst] in Hx. unfold diff_skip in Hx. cbn [andb] in Hx.
+      change (scopy h a (List.concat rbs)) with (inst h a rbs) in Hx. rewrite Hct in Hx. cbn [bind] in Hx. rewrite HT1' in Hx.
+      injection Hx as Ex. subst x.
+      exists ((((bs, t), (dbs, u)), rbs) :: Rs). cbn [map fst snd]. rewrite E1, E2. repeat split.
+      + constructor; [exact HB3|exact F1].
+      + constructor; [exact Hct|exact F2].
+  Qed.
+
+  Lemma fetch_one_reqS : forall allks chain i k recF b db,
+    odis (ohdr k) = false -> oplain k -> def_ok k -> restored_ok k ->
+    self_matching allks chain i (onm k) = [] -> dspS k b db -> rec_reqS k recF ->
+    forall sD rb u, lplain sD -> map sl (match_sources (onm k) sD) = strip_objs db ->
+    fetch_one env canon false allks chain i k recF sD = Ok (rb, u) -> reqS k b db rb.
+  Proof.
+    intros allks chain i k recF b db Hact Hk Hok Hrest Hself Hd Hrec sD rb u Hp Hv H.
+    unfold fetch_one in H. unfold onm in Hv, Hself.
+    destruct (get_attr (s_ "alias") (oattrs k)); try discriminate.
+    destruct (oname (ohdr k)) as [|c0 nm] eqn:En; [discriminate|].
+    pose proof (match_sources_plain (c0 :: nm) sD Hp) as Hm.
+    pose proof Hd as Hd0.
+    destruct Hd as [h mws a v x y Em Hvf Hx Hy Exy|h mws a v x Em Hvf Hx Hy|h kids a bs dbs Em HB HB2|k T L Em Hdk Hw|h kids a mas T Zs Em Hmas Hw HT HndT HB HC Hnd].
+    - (* kept definition *)
+      rewrite Em in H. cbn [negb] in H. cbn [ohdr] in Hact.
+      pose proof Hvf as [ws [Ev [Hws Hfix]]].
+      assert (Hsv : strip_objs [v] = [v]) by (subst v; cbn [strip_objs dcopy ohdr with_tmpl odis]; rewrite Hact; reflexivity).
+      rewrite Hsv in Hv.
+      destruct (match_sources (c0 :: nm) sD) as [|s' r'] eqn:EM; [discriminate|]. destruct r'; [|discriminate].
+      cbn [map] in Hv. injection Hv as Hv.
+      assert (El : lobj s' = v) by (unfold sl in Hv; rewrite Ev in Hv |- *; apply strip_obj_def_inv; exact Hv).
+      cbn [def_loop] in H. unfold def_fetch in H. rewrite (Hfix false s' El) in H. cbn [bind] in H.
+      injection H as Eb _. subst rb. apply reqS_keep; assumption.
+    - (* dropped definition: the master's own comes back *)
+      rewrite Em in H. cbn [negb] in H.
+      cbn [strip_objs] in Hv. destruct (match_sources (c0 :: nm) sD) as [|s' r'] eqn:EM; [|discriminate].
+      cbn [def_loop bind] in H. destruct Hok as [_ [Hdep _]]. rewrite Hdep in H. cbn [negb andb] in H.
+      injection H as Eb _. subst rb. apply reqS_drop; assumption.
+    - (* scope *)
+      rewrite Em in H. cbn [negb] in H. cbn [ohdr] in Hact.
+      pose proof (Bl2_pairs _ _ _ _ _ HB2) as HBP. pose proof (Bl2_lengths _ _ _ _ _ HB2) as Hlen.
+      set (xs := List.combine bs dbs) in *.
+      assert (Efst : map fst xs = bs) by (apply combine_fst; exact Hlen).
+      assert (Esnd : map snd xs = dbs) by (apply combine_snd; exact Hlen).
+      assert (Hrun : forall comb, lplain comb -> lview comb = strip_objs (List.concat dbs) ->
+                forall oc, recF comb = Ok oc -> reqS (Scp h kids a) [scopy h a (List.concat bs)] (optscope h a (List.concat dbs))
+                                                   [scopy h a (fst oc)]).
+      { intros comb Hcp Hcv [ros u0] Hoc. cbn [fst].
+        destruct (Hrec xs comb ros u0 HBP Hcp) as [rbs [Eros HB3]]; [rewrite Esnd; exact Hcv|exact Hoc|].
+        subst ros. rewrite <- Efst, <- Esnd. apply reqS_scp; assumption. }
+      destruct (List.concat dbs) as [|d0 dr] eqn:Edbs; cbn [optscope] in Hv, Hrun |- *.
+      + cbn [strip_objs] in Hv. destruct (match_sources (c0 :: nm) sD) as [|s' r'] eqn:EM; [|discriminate].
+        cbn [combine bind] in H. bind_inv H as oc Hoc. cbn [andb] in H. injection H as Eb _. subst rb.
+        apply (Hrun [] (fun x Hx => match Hx with end) eq_refl oc Hoc).
+      + assert (Hso : strip_objs [scopy h a (d0 :: dr)] = [Scp (with_tmpl h 0) (strip_objs (d0 :: dr)) a]).
+        { cbn [strip_objs scopy ohdr with_tmpl odis]. rewrite Hact. reflexivity. }
+        rewrite Hso in Hv.
+        destruct (match_sources (c0 :: nm) sD) as [|s' r'] eqn:EM; [discriminate|]. destruct r'; [|discriminate].
+        cbn [map] in Hv. injection Hv as Hv. unfold sl in Hv. apply strip_obj_scp_inv in Hv. destruct Hv as [ks' [El Ek]].
+        cbn [combine] in H. rewrite El in H. cbn [is_def bind] in H.
+        bind_inv H as oc Hoc. cbn [andb] in H. injection H as Eb _. subst rb.
+        apply (Hrun (src_kids s' ++ [])); [| |exact Hoc].
+        * rewrite app_nil_r. apply src_kids_plain1. apply Hm. left. reflexivity.
+        * rewrite app_nil_r, lview_src_kids. unfold sl. rewrite El, strip_obj_scp. cbn. exact Ek.
+    - (* multiple definition: the same block comes back *)
+      inversion Hw as [?|?|k0 mas L0 ts Em0 Hdk0 Hmas HL HF Hnd|?]; subst; try congruence; try discriminate.
+      destruct k as [h mws a|h ks a]; [|discriminate Hdk]. rewrite Em in H. cbn [negb] in H. cbn [ohdr] in Hact.
+      rewrite Hmas in H. cbn [bind] in H. rewrite Hself in H. cbn [map app] in H.
+      assert (HLd : forall c, In c L -> exists h' ws' a', c = Def h' ws' a' /\ odis h' = false).
+      { intros c Hc. rewrite Forall_forall in HL. destruct (vfix_def env _ _ (HL c Hc)) as [h' [ws' [a' [E Hd']]]].
+        exists h', ws', a'. split; [exact E|]. rewrite Hd'. exact Hact. }
+      rewrite (strip_defs L HLd) in Hv.
+      assert (HML : map lobj (match_sources (c0 :: nm) sD) = L).
+      { apply views_defs; [|exact Hv]. intros c Hc. destruct (HLd c Hc) as [h' [ws' [a' [E _]]]]. eauto. }
+      pose proof (evs_values env canon false h mws a recF mas L ts _ Hmas HL HF HML) as HevM.
+      bind_inv H as st Hst. destruct st as [[pd robjs] used]. injection H as Eb _. subst rb.
+      pose proof (mult_loop_fold env canon false (Def h mws a) recF mas Hmas (map (pair false) (match_sources (c0 :: nm) sD)) (fun _ _ => eq_refl) [] [] []) as F.
+      rewrite Hst in F. cbn [rmap fst] in F. rewrite map_snd_pair in F. rewrite HevM in F. cbn [rmap] in F. injection F as F.
+      destruct (fold_pstep_grel (map Some (List.combine ts L)) [] [] [] grel_nil) as [g [Hg Eg]]. rewrite <- F in Hg. cbn [fst snd] in Hg.
+      cbn [somesP] in Eg. rewrite somesP_map_some, kl_dd in Eg.
+      pose proof (Forall2_length' _ _ _ _ _ HF) as Hlen.
+      rewrite dd_id in Eg by (unfold pkeys; rewrite combine_fst by (symmetry; exact Hlen); exact Hnd).
+      assert (Esr : somes robjs = L).
+      { rewrite (gr_objs _ _ _ Hg), somes_objs_of, Eg. apply combine_snd. symmetry. exact Hlen. }
+      assert (Hiff : pd = [] <-> L = []).
+      { rewrite (grel_pd_nil _ _ _ Hg), Eg. clear -Hlen. destruct L as [|c L'], ts as [|t ts']; cbn in Hlen |- *; try lia; split; intros E; try reflexivity; discriminate E. }
+      pose proof (template_flag (Def h mws a) pd L Hiff) as Etf.
+      unfold template_of in Etf. cbn [set_hdr ohdr] in Etf. cbn [app]. rewrite Esr, Etf.
+      apply (reqS_mult (Def h mws a) (tmplS (Def h mws a) L :: L) L); assumption.
+    - (* multiple scope: the template, then every partial instance merged with the template *)
+      rewrite Em in H. cbn [negb] in H. cbn [ohdr] in Hact.
+      rewrite Hmas in H. cbn [bind] in H. rewrite Hself in H. cbn [map app] in H.
+      change (map (fun z : DI => inst h a (fst (snd z))) Zs) with (map (fun z : DI => inst h a ((fun q:DI => fst (snd q)) z)) Zs) in Hv.
+      rewrite <- (map_map (fun q:DI => fst (snd q)) (inst h a)) in Hv.
+      rewrite (inst_active h a (map (fun q:DI => fst (snd q)) Zs) Hact), map_map in Hv.
+      set (M' := match_sources (c0 :: nm) sD) in *.
+      bind_inv H as st Hst. destruct st as [[pd robjs] used]. injection H as Eb _. subst rb.
+      change ((if false then [] else [template_of (Scp h kids a) pd]) ++ somes robjs) with (template_of (Scp h kids a) pd :: somes robjs).
+      pose proof (mult_loop_fold env canon false (Scp h kids a) recF mas Hmas (map (pair false) M') (fun _ _ => eq_refl) [] [] []) as F.
+      rewrite Hst in F. cbn [rmap fst] in F. rewrite map_snd_pair in F.
+      destruct (evs env canon false (Scp h kids a) recF mas M') as [el| |] eqn:Eel; cbn [rmap] in F; try discriminate.
+      injection F as F.
+      destruct (evs_insts_req h kids a recF mas Hmas Em Hrec Hrest Zs M' el Hm Hv HT HB Eel) as [Rs [E1 [E2 [F1 F2]]]].
+      assert (HndR : NoDup (map (fun r:RI => snd (fst (fst r))) Rs)).
+      { rewrite <- E1, map_map in HndT. exact HndT. }
+      subst el.
+      destruct (fold_kept RI (fun r:RI => (snd (fst (fst r)), inst h a (snd r))) Rs pd robjs HndR (eq_sym F)) as [Esr Hpd].
+      cbn [snd] in Esr. rewrite Esr.
+      assert (ET : template_of (Scp h kids a) pd = T).
+      { rewrite (wbS_mscp_tmpl h kids a T _ Em Hw).
+        rewrite (template_flag (Scp h kids a) pd (map (fun z : DI => inst h a (fst (fst z))) Zs)); [reflexivity|].
+        rewrite Hpd, <- E1. destruct Rs; cbn; split; intros; congruence. }
+      match goal with |- reqS _ _ _ (?X :: _) => change X with (template_of (Scp h kids a) pd) end.
+      rewrite ET. clear Hst F Esr Hpd ET Eel Hv.
+      subst Zs. rewrite !map_map in Hd0 |- *.
+      apply (reqS_mscp h kids a mas T Rs); try assumption.
+      + apply Forall_of_map in HB. exact HB.
+      + apply Forall_of_map in HT. apply Forall_of_map in HC. rewrite Forall_forall in HT, HC, F2 |- *.
+        intros r Hr. destruct (HT r Hr) as [A1 A2]. destruct (HC r Hr) as [B1 [B2 B3]]. repeat split; auto.
+      + rewrite map_map in Hnd. exact Hnd.
+  Qed.
+
+  (* ---------------------------------------------------------------- the difference of what came back *)
+  Definition PD2S (k:obj) (x:X3) : Prop := reqS k (fst (fst x)) (snd (fst x)) (snd x).
+
+  Definition rec_d2S (k:obj) (recD:list lsrc -> res fout) : Prop :=
+    forall (xs:list X3) comb d2os u, Bl PD2S (entries (okids k)) xs -> lplain comb ->
+    lview comb = strip_objs (List.concat (map snd xs)) -> recD comb = Ok (d2os, u) ->
+    d2os = List.concat (map (fun x:X3 => snd (fst x)) xs).
+
+  Lemma dspS_mult_invS : forall k b d d', omultiple k = true -> is_def k = true -> dspS k b d -> dspS k b d' -> d = d'.
+  Proof.
+    intros k b d d' Em Hdk H H'.
+    destruct H as [h mws a v x y Em0|h mws a v x Em0|h kids a bs dbs Em0|k T L _ _ Hw|h kids a mas T Zs Em0]; try congruence; try discriminate.
+    inversion H' as [? ? ? ? ? ? Em1|? ? ? ? ? Em1|? ? ? ? ? Em1|k1 T1 L1 _ _ Hw1|? ? ? ? ? ? Em1]; subst; try congruence; try discriminate.
+  Qed.
+
+  (* the restored instances of a .multiple scope, offered to a difference run: the partial instances again *)
+  Lemma evs_insts_d2 : forall h kids a recD mas, rec_d2S (Scp h kids a) recD ->
+    forall (Rs:list RI) M' el, lplain M' ->
+    map sl M' = map (fun r:RI => Scp (with_tmpl h 0) (strip_objs (List.concat (snd r))) a) Rs ->
+    Forall (fun r:RI => Bl2 dspS (entries kids) (fst (fst (fst r))) (fst (snd (fst r)))) Rs ->
+    Forall (fun r:RI => Bl2 (fun k (x:list obj * list obj) rb => reqS k (fst x) (snd x) rb) (entries kids)
+                            (List.combine (fst (fst (fst r))) (fst (snd (fst r)))) (snd r)) Rs ->
+    Forall (fun r:RI => eqs (snd (fst (fst r))) mas = false /\
+                        canon (Scp h kids a) (Some (inst h a (snd r))) = Ok (snd (fst (fst r))) /\
+                        List.concat (fst (snd (fst r))) <> [] /\
+                        canon (Scp h kids a) (Some (inst h a (fst (snd (fst r))))) = Ok (snd (snd (fst r))) /\
+                        eqs (snd (snd (fst r))) mas = false) Rs ->
+    evs env canon true (Scp h kids a) recD mas M' = Ok el ->
+    el = map (fun r:RI => Some (snd (snd (fst r)), inst h a (fst (snd (fst r))))) Rs.
+  Proof.
+    intros h kids a recD mas Hrec.
+    induction Rs as [|[[[bs t] [dbs u]] rbs] Rs IH]; intros M' el Hp Hv HBd HB HC H.
+    - destruct M'; [|discriminate]. cbn in H. injection H as E. subst. reflexivity.
+    - destruct M' as [|s' M']; [discriminate|]. cbn [map fst snd] in Hv. injection Hv as Hv1 Hv2.
+      inversion HBd as [|? ? HBd1 HBd2]; subst. inversion HB as [|? ? HB1 HB2]; subst.
+      inversion HC as [|? ? [C1 [C2 [C3 [C4 C5]]]] HC2]; subst. cbn [fst snd] in *.
+      cbn [evs] in H. bind_inv H as x Hx. bind_inv H as xs Hxs. injection H as E. subst el.
+      rewrite (IH M' xs) by (try assumption; intros y Hy; apply Hp; right; exact Hy).
+      unfold ev in Hx. bind_inv Hx as cc Hcc.
+      destruct (cand_scope true h kids a recD s' _ _ _ cc (Hp s' (or_introl eq_refl)) Hv1 Hcc) as [comb [[d2os u0] [Hcp [Hcv [Hoc Ecc]]]]].
+      pose proof (Bl2_lengths _ _ _ _ _ HBd1) as Hlen1. pose proof (Bl2_lengths _ _ _ _ _ HB1) as Hlen2.
+      assert (E2 : d2os = List.concat (map (fun x:X3 => snd (fst x)) (List.combine (List.combine bs dbs) rbs))).
+      { apply (Hrec (List.combine (List.combine bs dbs) rbs) comb d2os u0 (Bl2_pairs _ _ _ _ _ HB1) Hcp); [|exact Hoc].
+        rewrite (combine_snd _ _ _ rbs Hlen2). exact Hcv. }
+      assert (Emap : map (fun x:X3 => snd (fst x)) (List.combine (List.combine bs dbs) rbs) = dbs).
+      { transitivity (map snd (map fst (List.combine (List.combine bs dbs) rbs))); [rewrite map_map; reflexivity|].
+        rewrite (combine_fst _ _ _ rbs Hlen2). apply combine_snd. exact Hlen1. }
+      rewrite Emap in E2. subst cc d2os.
+      cbn [fst] in Hx. unfold diff_skip in Hx. cbn [andb okids scopy] in Hx.
+      destruct (List.concat dbs) as [|d0 dr] eqn:Ed; [congruence|]. cbn [null_objs] in Hx. rewrite <- Ed in Hx.
+      change (scopy h a (List.concat dbs)) with (inst h a dbs) in Hx. rewrite C4 in Hx. cbn [bind] in Hx. rewrite C5 in Hx.
+      injection Hx as Ex. subst x. reflexivity.
+  Qed.
+
+  Lemma fetch_one_d2S : forall allks chain i k recD b db rb,
+    odis (ohdr k) = false -> oplain k -> def_ok k -> partial_ok k ->
+    self_matching allks chain i (onm k) = [] -> reqS k b db rb -> rec_dspS k recD -> rec_raw k recD -> rec_d2S k recD ->
+    forall sR d2b u, lplain sR -> map sl (match_sources (onm k) sR) = strip_objs rb ->
+    fetch_one env canon true allks chain i k recD sR = Ok (d2b, u) -> d2b = db.
+  Proof.
+    intros allks chain i k recD b db rb Hact Hk Hok Hpart Hself Hr Hrd Hraw Hr2 sR d2b u Hp Hv H.
+    destruct Hr as [h mws a v Em Hd|h mws a v Em Hd|h kids a xs rbs Em HB|k b L Em Hdk Hd|h kids a mas T Rs Em Hmas Hd HBd HB HC Hn1 Hn2].
+    - (* kept: the same run as the first difference *)
+      pose proof (fetch_one_dspS allks chain i _ recD [v] Hact Hk Hok Hpart Hself (dspS_wbS _ _ _ Hd) Hrd Hraw sR d2b u Hp Hv H) as Hd'.
+      inversion Hd as [? ? ? ? x y _ Hvf Hx Hy Exy|? ? ? ? ? _ ? ? ?|?|? ? ? Em1 ?|?]; subst; try congruence.
+      inversion Hd' as [|? ? ? ? x' _ _ Hx' Hy'|?|? ? ? Em1 ?|?]; subst; try congruence.
+      rewrite Hx in Hx'. injection Hx' as E. subst x'. rewrite Hy in Hy'. injection Hy' as E. subst y.
+      rewrite f_eqs_refl in Exy. discriminate.
+    - (* dropped: the master's own definition does not differ from itself *)
+      unfold fetch_one in H. unfold onm in Hv.
+      destruct (get_attr (s_ "alias") (oattrs (Def h mws a))); try discriminate.
+      destruct (oname (ohdr (Def h mws a))) as [|c0 nm] eqn:En; [discriminate|].
+      rewrite Em in H. cbn [negb] in H. cbn [ohdr] in Hact.
+      cbn [strip_objs ohdr] in Hv. rewrite Hact in Hv. cbn [strip_obj] in Hv.
+      destruct (match_sources (c0 :: nm) sR) as [|s' r'] eqn:EM; [discriminate|]. destruct r'; [|discriminate].
+      cbn [map] in Hv. injection Hv as Hv. unfold sl in Hv. apply strip_obj_def_inv in Hv.
+      cbn [def_loop] in H. unfold def_fetch in H.
+      rewrite (def_self_fetch_dm env true h mws a s' Hok (proj1 (oplain_def h mws a) Hk)) in H by (eexists; eexists; exact Hv).
+      cbn [bind] in H. rewrite (H_self (Def h mws a)) in H.
+      inversion Hd as [|? ? ? ? x _ _ Hx Hy|?|? ? ? Em1 ?|?]; subst; try congruence.
+      rewrite Hy in H. cbn [bind] in H. rewrite f_eqs_refl in H. cbn [bind negb andb] in H. injection H as E _. auto.
+    - (* scope *)
+      unfold fetch_one in H. unfold onm in Hv.
+      destruct (get_attr (s_ "alias") (oattrs (Scp h kids a))); try discriminate.
+      destruct (oname (ohdr (Scp h kids a))) as [|c0 nm] eqn:En; [discriminate|].
+      pose proof (match_sources_plain (c0 :: nm) sR Hp) as Hm.
+      rewrite Em in H. cbn [negb] in H. cbn [ohdr] in Hact.
+      assert (Hso : strip_objs [scopy h a (List.concat rbs)] = [Scp (with_tmpl h 0) (strip_objs (List.concat rbs)) a]).
+      { cbn [strip_objs scopy ohdr with_tmpl odis]. rewrite Hact. reflexivity. }
+      rewrite Hso in Hv.
+      destruct (match_sources (c0 :: nm) sR) as [|s' r'] eqn:EM; [discriminate|]. destruct r'; [|discriminate].
+      cbn [map] in Hv. injection Hv as Hv. unfold sl in Hv. apply strip_obj_scp_inv in Hv. destruct Hv as [ks' [El Ek]].
+      cbn [combine] in H. rewrite El in H. cbn [is_def bind] in H.
+      bind_inv H as oc Hoc. destruct oc as [d2os u0]. cbn [fst snd andb] in H.
+      pose proof (Bl2_pairs _ _ _ _ _ HB) as HBP. pose proof (Bl2_lengths _ _ _ _ _ HB) as Hlen.
+      assert (E2 : d2os = List.concat (map (fun x:X3 => snd (fst x)) (List.combine xs rbs))).
+      { apply (Hr2 (List.combine xs rbs) (src_kids s' ++ []) d2os u0 HBP).
+        - rewrite app_nil_r. apply src_kids_plain1. apply Hm. left. reflexivity.
+        - rewrite app_nil_r, lview_src_kids. unfold sl. rewrite El, strip_obj_scp. cbn [okids].
+          rewrite (combine_snd _ _ xs rbs Hlen). exact Ek.
+        - exact Hoc. }
+      assert (Emap : map (fun x:X3 => snd (fst x)) (List.combine xs rbs) = map snd xs).
+      { rewrite <- (combine_fst _ _ xs rbs Hlen) at 2. rewrite map_map. reflexivity. }
+      rewrite Emap in E2. subst d2os.
+      destruct (null_objs (List.concat (map snd xs))) eqn:En0; injection H as Eb _; subst d2b;
+        destruct (List.concat (map snd xs)); try discriminate; reflexivity.
+    - (* multiple definition: the same block, the same difference *)
+      pose proof (fetch_one_dspS allks chain i k recD b Hact Hk Hok Hpart Hself (dspS_wbS _ _ _ Hd) Hrd Hraw sR d2b u Hp Hv H) as Hd'.
+      eapply dspS_mult_invS; eassumption.
+    - (* multiple scope: the template is skipped, every restored instance gives its partial instance again *)
+      unfold fetch_one in H. unfold onm in Hv, Hself.
+      destruct (get_attr (s_ "alias") (oattrs (Scp h kids a))); try discriminate.
+      destruct (oname (ohdr (Scp h kids a))) as [|c0 nm] eqn:En; [discriminate|].
+      pose proof (match_sources_plain (c0 :: nm) sR Hp) as Hm.
+      rewrite Em in H. cbn [negb] in H. cbn [ohdr] in Hact.
+      rewrite Hmas in H. cbn [bind] in H. rewrite Hself in H. cbn [map app] in H.
+      rewrite (wbS_mscp_tmpl h kids a T _ Em (dspS_wbS _ _ _ Hd)) in Hv.
+      change (map (fun r : RI => inst h a (snd r)) Rs) with (map (fun r : RI => inst h a ((fun q:RI => snd q) r)) Rs) in Hv.
+      rewrite <- (map_map (fun q:RI => snd q) (inst h a)) in Hv.
+      unfold tmplS in Hv. cbn [strip_objs set_hdr ohdr with_tmpl odis] in Hv. rewrite Hact in Hv.
+      rewrite (inst_active h a (map (fun q:RI => snd q) Rs) Hact), map_map, strip_obj_scp in Hv.
+      destruct (match_sources (c0 :: nm) sR) as [|sT M'] eqn:EM; [discriminate|].
+      cbn [map] in Hv. injection Hv as HvT HvM.
+      bind_inv H as st Hst. destruct st as [[pd robjs] used]. injection H as Eb _. subst d2b. cbn [app].
+      assert (Hfl : forall fs, In fs (map (pair false) (sT :: M')) -> true && fst fs = false).
+      { intros fs Hfs. apply in_map_iff in Hfs. destruct Hfs as [x [E _]]. subst fs. reflexivity. }
+      pose proof (mult_loop_fold env canon true (Scp h kids a) recD mas Hmas (map (pair false) (sT :: M')) Hfl [] [] []) as F.
+      rewrite Hst in F. cbn [rmap fst] in F. rewrite map_snd_pair in F. cbn [evs] in F.
+      destruct (ev env canon true (Scp h kids a) recD mas sT) as [xT| |] eqn:EevT; cbn [bind rmap] in F; try discriminate.
+      destruct (evs env canon true (Scp h kids a) recD mas M') as [elM| |] eqn:EevM; cbn [bind rmap] in F; try discriminate.
+      injection F as F.
+      assert (ExT : xT = None).
+      { unfold ev in EevT. bind_inv EevT as cc Hcc.
+        destruct (cand_scope true h kids a recD sT _ _ _ cc (Hm sT (or_introl eq_refl)) HvT Hcc) as [comb [[dos u0] [Hcp [Hcv [Hoc Ecc]]]]].
+        rewrite (Hraw comb dos u0 Hcp Hcv Hoc) in Ecc. subst cc.
+        cbn [fst diff_skip andb okids scopy null_objs] in EevT. injection EevT as E. auto. }
+      subst xT. cbn [fold_left pstep] in F.
+      assert (HpM : lplain M') by (intros y Hy; apply Hm; right; exact Hy).
+      try rewrite map_map in HvM.
+      pose proof (evs_insts_d2 h kids a recD mas Hr2 Rs M' elM HpM HvM HBd HB HC EevM) as Eel. subst elM.
+      destruct (fold_kept RI (fun r:RI => (snd (snd (fst r)), inst h a (fst (snd (fst r))))) Rs pd robjs Hn2 (eq_sym F)) as [Esr _].
+      cbn [snd] in Esr. exact Esr.
+  Qed.
+
+  (* ---------------------------------------------------------------- the whole scope: W, D, R, D2 *)
+  Lemma scope_cycleS : forall M, wfd env canon M -> wf_obj M -> oplain M ->
+    (forall x, subobj M x -> partial_ok x) -> (forall x, subobj M x -> restored_ok x) -> forall chain,
+    rec_reqS M (fetch_scope env canon false M chain) /\ rec_d2S M (fetch_scope env canon true M chain).
+  Proof.
+    induction M as [h ws a|h ks a IH] using obj_ind2; intros Hwf Hu HM Hor Hor2 chain.
+    - split; intro; intros; cbn in *; discriminate.
+    - inversion Hwf as [|h0 ks0 a0 Hnd Hent]; subst. pose proof Hu as [Hun _].
+      pose proof (proj1 (oplain_scp h ks a) HM) as Hks. rewrite Forall_forall in IH.
+      pose proof (active_names_nonempty env canon _ _ _ Hwf Hun) as Hnames.
+      assert (Hnm : forall k, In k (entries ks) -> onm k <> [] /\ nodot (onm k)).
+      { intros k Hk. destruct (Hent k Hk) as [A [B _]]. auto. }
+      assert (HE : forall j k, In (j, k) (ientries_from [] 0 ks) ->
+                odis (ohdr k) = false /\ oplain k /\ def_ok k /\ partial_ok k /\ restored_ok k /\
+                self_matching ks (ks :: chain) j (onm k) = [] /\
+                rec_dspS k (fetch_scope env canon true k (ks :: chain)) /\
+                rec_raw k (fetch_scope env canon true k (ks :: chain)) /\
+                rec_reqS k (fetch_scope env canon false k (ks :: chain)) /\
+                rec_d2S k (fetch_scope env canon true k (ks :: chain))).
+      { intros j k Hjk. pose proof (In_ientries _ _ _ _ _ Hjk) as Hk.
+        destruct (entries_active _ _ _ Hk) as [Hact Hin].
+        destruct (Hent k Hk) as [_ [Hdot [_ Hw]]].
+        destruct (ientries_nth _ _ _ _ _ Hjk) as [_ Hnth]. rewrite Nat.sub_0_r in Hnth.
+        assert (Hkp : oplain k) by (apply Hks; exact Hin).
+        pose proof (wf_obj_kid _ _ _ _ Hu Hin Hact) as Hwk.
+        split; [exact Hact|]. split; [exact Hkp|]. split; [eapply wfd_def_ok; exact Hw|].
+        split; [apply Hor; eapply sub_kid; [exact Hin|apply sub_refl]|].
+        split; [apply Hor2; eapply sub_kid; [exact Hin|apply sub_refl]|].
+        split; [apply self_matching_uniq; try assumption; intros x Hx Hd; apply (Hnames x Hx Hd)|].
+        destruct (scope_wd k Hw Hwk Hkp (fun x Hx => Hor x (sub_kid h ks a k x Hin Hx)) (ks :: chain)) as [_ B].
+        destruct (IH k Hin Hw Hwk Hkp (fun x Hx => Hor x (sub_kid h ks a k x Hin Hx))
+                    (fun x Hx => Hor2 x (sub_kid h ks a k x Hin Hx)) (ks :: chain)) as [C D].
+        split; [exact B|]. split; [apply scope_raw; assumption|]. split; [exact C|exact D]. }
+      split.
+      + (* merged back *)
+        intros xs comb ros u HB Hp Hv H. cbn [fetch_scope okids] in *.
+        destruct (mloop_an (list obj * list obj)%type snd PRS QRS (fun i0 k0 => fetch_one env canon false ks (ks :: chain) i0 k0 (fetch_scope env canon false k0 (ks :: chain)) comb) (fun k x Hx => dspS_named _ _ _ Hx) (List.concat (map snd xs)) ks [] 0 xs [] [] (ros, u) HB Hnd Hnm)
+          as [ys [Eys HB2]]; [intros x []|cbn [app]; rewrite app_nil_r; symmetry; apply flat_map_snd|exact H| |exists ys; split; [exact Eys|exact HB2]].
+        intros j k x [bo uo] Hjk Hx Hg Hb. destruct (HE j k Hjk) as [A [B [C [D [D' [E [_ [_ [G _]]]]]]]]]. cbn [fst].
+        unfold QRS. eapply fetch_one_reqS; try eassumption.
+        rewrite (match_sources_gview (onm k) comb (List.concat (map snd xs)) Hv). exact Hg.
+      + (* and differenced again *)
+        intros xs comb d2os u HB Hp Hv H. cbn [fetch_scope okids] in *.
+        destruct (mloop_an X3 snd PD2S QD2 (fun i0 k0 => fetch_one env canon true ks (ks :: chain) i0 k0 (fetch_scope env canon true k0 (ks :: chain)) comb) (fun k x Hx => reqS_named _ _ _ _ Hx) (List.concat (map snd xs)) ks [] 0 xs [] [] (d2os, u) HB Hnd Hnm)
+          as [ys [Eys HB2]]; [intros x []|cbn [app]; rewrite app_nil_r; symmetry; apply flat_map_snd|exact H| |].
+        * intros j k x [bo uo] Hjk Hx Hg Hb. destruct (HE j k Hjk) as [A [B [C [D [D' [E [G1 [G2 [_ G3]]]]]]]]]. cbn [fst].
+          unfold QD2. eapply fetch_one_d2S; try eassumption.
+          rewrite (match_sources_gview (onm k) comb (List.concat (map snd xs)) Hv). exact Hg.
+        * cbn [fst] in Eys. rewrite Eys, (Bl2_QD2 _ _ _ HB2). reflexivity.
   Qed.
 
   (* ---------------------------------------------------------------- the difference of the defaults *)
@@ -784,6 +1157,46 @@ Section RootS.
     unfold fetch in Hdf. bind_inv Hdf as oc Hoc'. injection Hdf as E. subst d. destruct oc as [d u']. unfold fetch_root in Hoc'.
     cbn [fst]. apply (B bs (root_lsrcs [w0]) d u' HB); [apply lplain_root; exact Hwp|rewrite root_view, Ew; reflexivity|exact Hoc'].
   Qed.
+  Theorem restore_ms : forall m srcs w d r, D08S m -> partial_texts_ok m -> restored_texts_ok m ->
+    srcs_have_dollar srcs = false ->
+    fetch env canon false m srcs = Ok w -> fetch env canon true m [w] = Ok d -> fetch env canon false m [d] = Ok r ->
+    exists xs rbs, w = List.concat (map fst xs) /\ d = List.concat (map snd xs) /\ r = List.concat rbs /\
+                   Bl2 (QRS env canon) (entries m) xs rbs.
+  Proof.
+    intros m srcs w d r HD Hor Hor2 Hd H Hdf Hr. destruct (diff_spec_ms m srcs w d HD Hor Hd H Hdf) as [bs [dbs [Ew [Ed HB2]]]].
+    pose proof HD as [[Hwf Hmp] Hu].
+    pose proof (fetch_result_plain env canon false m srcs w Hmp Hd H) as Hwp.
+    pose proof (fetch_result_plain env canon true m [w] d Hmp Hwp Hdf) as Hdp.
+    unfold fetch in Hr. bind_inv Hr as oc Hoc. injection Hr as E. subst r. destruct oc as [r u]. unfold fetch_root in Hoc.
+    destruct (scope_cycleS env canon H_self (root_scope m) Hwf Hu (root_plain m Hmp) Hor Hor2 []) as [C _].
+    pose proof (Bl2_lengths _ _ _ _ _ HB2) as Hlen.
+    destruct (C (List.combine bs dbs) (root_lsrcs [d]) r u (Bl2_pairs _ _ _ _ _ HB2)) as [rbs [Er HB3]].
+    - apply lplain_root. exact Hdp.
+    - rewrite root_view, (combine_snd _ _ bs dbs Hlen), Ed. reflexivity.
+    - exact Hoc.
+    - exists (List.combine bs dbs), rbs. rewrite (combine_fst _ _ bs dbs Hlen), (combine_snd _ _ bs dbs Hlen). auto.
+  Qed.
+
+  Theorem diff_of_restored_ms : forall m srcs w d r d2, D08S m -> partial_texts_ok m -> restored_texts_ok m ->
+    srcs_have_dollar srcs = false ->
+    fetch env canon false m srcs = Ok w -> fetch env canon true m [w] = Ok d -> fetch env canon false m [d] = Ok r ->
+    fetch env canon true m [r] = Ok d2 -> d2 = d.
+  Proof.
+    intros m srcs w d r d2 HD Hor Hor2 Hd H Hdf Hr Hd2.
+    destruct (restore_ms m srcs w d r HD Hor Hor2 Hd H Hdf Hr) as [xs [rbs [Ew [Ed [Er HB3]]]]].
+    pose proof HD as [[Hwf Hmp] Hu].
+    pose proof (fetch_result_plain env canon false m srcs w Hmp Hd H) as Hwp.
+    pose proof (fetch_result_plain env canon true m [w] d Hmp Hwp Hdf) as Hdp.
+    pose proof (fetch_result_plain env canon false m [d] r Hmp Hdp Hr) as Hrp.
+    unfold fetch in Hd2. bind_inv Hd2 as oc Hoc. injection Hd2 as E. subst d2. destruct oc as [d2 u]. unfold fetch_root in Hoc.
+    destruct (scope_cycleS env canon H_self (root_scope m) Hwf Hu (root_plain m Hmp) Hor Hor2 []) as [_ D].
+    pose proof (Bl2_lengths _ _ _ _ _ HB3) as Hlen.
+    rewrite (D (List.combine xs rbs) (root_lsrcs [r]) d2 u (Bl2_pairs _ _ _ _ _ HB3)).
+    - cbn [fst]. rewrite Ed. f_equal. rewrite <- (combine_fst _ _ xs rbs Hlen) at 2. rewrite map_map. reflexivity.
+    - apply lplain_root. exact Hrp.
+    - rewrite root_view, (combine_snd _ _ xs rbs Hlen), Er. reflexivity.
+    - exact Hoc.
+  Qed.
 End RootS.
 
 (* ------------------------------------------------------------------ concrete runs *)
@@ -899,6 +1312,55 @@ Proof.
            ++ unfold ncanon, inst, scopy in Ht, Ht'. injection Ht as Et. injection Ht' as Et'. subst t t'.
               cbn [ntext List.concat app] in *. rewrite !app_nil_r, Ev, Ev'. reflexivity.
       * destruct Hin1 as [E|[]]. subst k1. apply subobj_def in Hsub1. subst k. exact I.
+Qed.
+
+(* the blocks of an instance of s, of its difference, and of the restored instance *)
+Lemma ms_rblocks : forall xs rbs, Bl2 (QRS ex_env ncanon) (entries [ms_a]) xs rbs ->
+  exists v, (xs = [([v], [v])] /\ rbs = [[v]]) \/ (xs = [([v], [])] /\ rbs = [[ms_a]] /\ ntext v = ntext ms_a).
+Proof.
+  intros xs rbs H. change (entries [ms_a]) with [ms_a] in H.
+  inversion H as [|k x y es xs' ys Hq Hr]; subst. inversion Hr; subst.
+  unfold QRS, ms_a in Hq. destruct x as [b db]. cbn [fst snd] in Hq.
+  inversion Hq as [h mws a v Em Hd|h mws a v Em Hd| |k b0 L Em|]; subst.
+  - exists v. left. split; reflexivity.
+  - exists v. right. split; [reflexivity|]. split; [reflexivity|].
+    inversion Hd as [|? ? ? ? x0 _ _ Hx Hy| |? ? ? Em1|]; subst; [|discriminate Em1].
+    unfold ncanon in Hx, Hy. injection Hx as Hx. injection Hy as Hy. rewrite Hx, <- Hy. reflexivity.
+  - discriminate Em.
+Qed.
+
+Lemma ms_restored_ok : restored_texts_ok ex_env ncanon ms_master.
+Proof.
+  intros k Hk. inversion Hk as [|h ks a k0 x Hin Hsub]; subst.
+  - intros Em. discriminate Em.
+  - destruct Hin as [E|[E|[]]]; subst k0.
+    + apply subobj_def in Hsub. subst k. exact I.
+    + inversion Hsub as [|h1 ks1 a1 k1 x1 Hin1 Hsub1]; subst.
+      * intros _ xs rbs t HB Ht. destruct (ms_rblocks xs rbs HB) as [v [[Ex Er]|[Ex [Er Ev]]]]; subst xs rbs.
+        -- exact Ht.
+        -- rewrite <- Ht. unfold ncanon, inst, scopy. f_equal.
+           cbn [ntext List.concat app map fst]. rewrite !app_nil_r, Ev. reflexivity.
+      * destruct Hin1 as [E|[]]. subst k1. apply subobj_def in Hsub1. subst k. exact I.
+Qed.
+
+(* the two-leaf master of the exploration:  x = 0   s .multiple { a = 1  b = 2 },
+   source  s { a = 3 }  s { a = 1 }  s { b = 5 }  s { a = 3 }:  W = template, s { a = 1  b = 5 }, s { a = 3  b = 2 };
+   D = s { b = 5 }, s { a = 3 } (partial instances); R = W; D2 = D *)
+Definition m2_master : list obj :=
+  [ ms_x;
+    Scp (dh "s" false 2 2) [Def (dh "a" false 3 3) [w_ "1" 3] []; Def (dh "b" false 4 4) [w_ "2" 4] []] [(s_ "multiple", ABool true)] ].
+Definition m2_ia (pid line:nat) (v:String.string) : obj := Scp (dh "s" false pid line) [Def (dh "a" false (S pid) line) [w_ v line] []] [].
+Definition m2_ib (pid line:nat) (v:String.string) : obj := Scp (dh "s" false pid line) [Def (dh "b" false (S pid) line) [w_ v line] []] [].
+Definition m2_source : list obj := [ m2_ia 1 1 "3"; m2_ia 3 2 "1"; m2_ib 5 3 "5"; m2_ia 7 4 "3" ].
+
+Lemma m2_runs : exists w d,
+  fetch ex_env ncanon false m2_master [m2_source] = Ok w /\ fetch ex_env ncanon true m2_master [w] = Ok d /\
+  fetch ex_env ncanon false m2_master [d] = Ok w /\ fetch ex_env ncanon true m2_master [w] = Ok d /\
+  map ntext w = [s_ "x=0;"; s_ "s{a=1;b=2;}"; s_ "s{a=1;b=5;}"; s_ "s{a=3;b=2;}"] /\
+  map ntext d = [s_ "s{b=5;}"; s_ "s{a=3;}"].
+Proof.
+  eexists. eexists. split; [vm_compute; reflexivity|]. split; [vm_compute; reflexivity|].
+  repeat split; vm_compute; reflexivity.
 Qed.
 
 (* ------------------------------------------------------------------ the hypothesis partial_texts_ok is needed *)
